@@ -1,0 +1,58 @@
+//go:build verif
+
+package rpc
+
+// VerifView is a read-only snapshot of a Conn's tables for the verification
+// harness (/verif).  It is compiled only with the build tag "verif".
+type VerifView struct {
+	MuFree       bool // c.mu could be acquired (all other fields are valid only then)
+	ShuttingDown bool // c.bgctx is done
+	Shut         bool // c.shut is closed
+	SenderLocked bool // c.sendCond != nil
+	Questions    int  // non-nil entries of c.questions
+	Answers      int  // entries of c.answers
+	Exports      int  // non-nil entries of c.exports
+	WireRefs     int  // sum of their wireRefs
+	Imports      int  // entries of c.imports
+	Embargoes    int  // non-nil entries of c.embargoes
+}
+
+// VerifView returns the table occupancy of c.  It does not modify c.
+func (c *Conn) VerifView() VerifView {
+	var v VerifView
+	if !c.mu.TryLock() {
+		return v
+	}
+	defer c.mu.Unlock()
+	v.MuFree = true
+	select {
+	case <-c.bgctx.Done():
+		v.ShuttingDown = true
+	default:
+	}
+	select {
+	case <-c.shut:
+		v.Shut = true
+	default:
+	}
+	v.SenderLocked = c.sendCond != nil
+	for _, q := range c.questions {
+		if q != nil {
+			v.Questions++
+		}
+	}
+	v.Answers = len(c.answers)
+	for _, e := range c.exports {
+		if e != nil {
+			v.Exports++
+			v.WireRefs += int(e.wireRefs)
+		}
+	}
+	v.Imports = len(c.imports)
+	for _, e := range c.embargoes {
+		if e != nil {
+			v.Embargoes++
+		}
+	}
+	return v
+}
